@@ -6,6 +6,8 @@ import (
 	"fmt"
 	"github.com/pentops/j5/internal/bcl/genlsp"
 	"os"
+	"os/exec"
+	"path/filepath"
 	"sort"
 	"strings"
 	"unicode"
@@ -16,7 +18,12 @@ import (
 )
 
 func init() {
-	Registry["C09"] = func(r *rt.Runner) { runFmtProps(r, c09Check) }
+	Registry["C09"] = func(r *rt.Runner) {
+		runFmtProps(r, c09Check)
+		// the formatter as users run it: `j5 j5s fmt --file F --write` (the repository's own command, built without
+		// harness code) rewrites the file in place; what is in the file afterwards must be Fmt's output
+		r.Do("cli-write", func(c *rt.C) { c09CLI(c) })
+	}
 	Registry["C19"] = func(r *rt.Runner) {
 		// the same document with CRLF line ends (what an editor on another platform sends) is judged for C19 only:
 		// edits and formatter must still agree
@@ -317,6 +324,60 @@ func applyLSPEdits(x string, edits []genlsp.VerifTextEdit) string {
 	return out
 }
 
+func c09CLI(c *rt.C) {
+	bin := os.Getenv("VERIF_J5_BIN")
+	if bin == "" {
+		c.Feature("c09:cli-not-built")
+		return
+	}
+	dir, err := os.MkdirTemp("", "verif-c09-cli-")
+	if err != nil {
+		panic("harness: " + err.Error())
+	}
+	defer os.RemoveAll(dir)
+	rng := c.Rand()
+	inputs := []string{"a = 1\n", "a   =   1\n\n\n\nb = 2\n\n\n", "x {\n\n\n   a = 1\n\n\n}\n\n\n\n", "/* c */ a = 1 // d\n", "x {\n| words   here\n}\n", "a = [1 ,2 ,3 ]\n      b = \"s\"\n"}
+	for i := 0; i < 40; i++ {
+		x := genBCL(rng, true)
+		// make most of them longer than their formatted form: blank lines and trailing spaces the formatter removes
+		x = strings.ReplaceAll(x, "\n", " \n\n\n")
+		inputs = append(inputs, x)
+	}
+	for i, x := range inputs {
+		var want string
+		ok, _, _, _ := rt.Guard(func() { want, err = bcl.VerifFmt(x) })
+		if !ok || err != nil || strings.Contains(x, "\r") {
+			continue
+		}
+		path := filepath.Join(dir, fmt.Sprintf("f%d.j5s", i))
+		if err := os.WriteFile(path, []byte(x), 0o644); err != nil {
+			panic("harness: " + err.Error())
+		}
+		c.Eval(rt.Hash("cli", x), true)
+		cmd := exec.Command(bin, "j5s", "fmt", "--file", path, "--write")
+		cmd.Dir = dir
+		out, rerr := cmd.CombinedOutput()
+		det := map[string]any{"input": x, "formatter_output": want, "cli_output": rt.Clip(string(out), 2000)}
+		if rerr != nil {
+			c.Violate("cli/fails", fmt.Sprintf("`j5 j5s fmt --write` fails on a file the formatter accepts: %v: %s", rerr, rt.Clip(string(out), 300)), det)
+			continue
+		}
+		got, err := os.ReadFile(path)
+		if err != nil {
+			panic("harness: " + err.Error())
+		}
+		c.Event("cli_files_rewritten")
+		if len(want) < len(x) {
+			c.Feature("c09:cli-write-shrinks")
+		}
+		if string(got) != want {
+			det["file_after"] = string(got)
+			c.Violate("cli/file-differs", fmt.Sprintf("after `j5 j5s fmt --write` the file does not hold the formatter's output: %s", firstDiff(string(got), want)), det)
+		}
+	}
+	c.Feature("c09:cli-write")
+}
+
 // runFmtProps drives C09 and C19 over the same space of inputs.
 func runFmtProps(r *rt.Runner, checkAny func(c *rt.C, x string, class string)) {
 	// C09/C19 quantify over CRLF-free text
@@ -357,7 +418,9 @@ func runFmtProps(r *rt.Runner, checkAny func(c *rt.C, x string, class string)) {
 				}
 			}
 		}
-		descs := []string{"| a", "|a", "|", "| a\n| b", "| a\n|\n| b", "| a\n|\n|\n| b", "|\n| a", "| a\n|", "|  a   b  ", "| " + strings.Repeat("word ", 30), "| a\n\n| b", "\t| a\n  | b"}
+		descs := []string{"| a", "|a", "|", "| a\n| b", "| a\n|\n| b", "| a\n|\n|\n| b", "|\n| a", "| a\n|", "|  a   b  ", "| " + strings.Repeat("word ", 30), "| a\n\n| b", "\t| a\n  | b",
+			"| see " + strings.Repeat("x", 76) + " for details", "| see " + strings.Repeat("x", 80) + " for more details and then some", "| before " + strings.Repeat("y", 120) + " after\n| next line",
+			"| " + strings.Repeat("z", 90), "| a b c d e f g h i j k l m n o p q r s t u v w x y z a b c d e f g h i j k l m n " + strings.Repeat("w", 70) + " tail words here"}
 		for _, d := range descs {
 			check(c, d+"\n", "systematic-description")
 			check(c, "x {\n"+d+"\n}\n", "systematic-description")
